@@ -1,5 +1,5 @@
 """Property -> rules registry.  Rules are added here as they are built; a property without rules is not claimed."""
-from .rules import determinism, panics, wiring, traversal, annot, shape, hygiene, enums, shrinking, fresh, sharing, codegen, abi, pmoves, labels, runtime, typing as typing_rules, formatting, linear, memory, termination, focus, inputs, statements
+from .rules import translate, determinism, panics, wiring, traversal, annot, shape, hygiene, enums, shrinking, fresh, sharing, codegen, abi, pmoves, labels, runtime, typing as typing_rules, formatting, linear, memory, termination, focus, inputs, statements
 
 
 def _thorough_only(rule):
@@ -145,14 +145,16 @@ PROPS = {
         "assumptions": ["the degree of the polynomial is not decided; growth from other sources than duplicated continuations was not found by reading"],
     },
     "C02": {
-        "rules": [hygiene.rule_hyg, hygiene.rule_seed, hygiene.rule_binders, hygiene.rule_fvscope, hygiene.rule_seq, inputs.rule_useall_for(["fun2core"], 50), enums.rule_enum_maps({"fun2core"}), enums.rule_enum_surface,
+        "rules": [hygiene.rule_hyg, hygiene.rule_seed, hygiene.rule_binders, hygiene.rule_fvscope, hygiene.rule_seq, inputs.rule_useall_for(["fun2core"], 50), enums.rule_enum_maps({"fun2core"}), enums.rule_enum_surface, translate.rule_xlate,
                   traversal.rule_trav(["fun::traits::used_binders::UsedBinders", "fun2core::compile::Compile"])],
         "text": "Hygiene and naming clauses of the Fun->Core translation, decided for every program at once: (R-HYG) the incoming "
                 "consumer is never placed under a binder copied verbatim from the source; (R-SEED) fresh names are seeded from the "
                 "parameters and from all binders of the body before the first fresh name is drawn, lifted labels come from "
                 "fresh_name over all definition names, no literal names; (R-TRAV) UsedBinders and Compile visit every subterm; "
-                "(R-ENUM) comparison sorts and operators are translated name-preservingly from token to Core.",
-        "assumptions": ["that the CPS translation computes the right value/effect order is not decided"],
+                "(R-ENUM) comparison sorts and operators are translated name-preservingly from token to Core; (R-XLATE) the translation "
+                "scheme of the simple term forms - which subterm is translated with which consumer, what is cut against what, where the "
+                "incoming consumer ends up - is the continuation-passing translation of the language (read off the folded compile_with_cont).",
+        "assumptions": ["the translation of constructors, destructors, case and new (symbol-table dependent) is decided only by the structural rules, not by R-XLATE"],
     },
     "C03": {
         "rules": [traversal.rule_trav(["scc_core_lang::traits::substitution::Subst", "scc_core_lang::traits::substitution::SubstVar",
